@@ -20,7 +20,7 @@ def H(**kw):
     # 'playback': no nondeterministic environment model in the way => the solver's assignment is re-executed natively.
     # 'model'   : the harness depends on an environment model (ideal AEAD table, recorders returning fresh values);
     #             a counterexample is reported from the model run, with the assignment saved in the witness file.
-    kw.setdefault("replay", "model" if kw["name"].startswith(("enc_", "dec_", "hdr_", "noise_", "cmd_", "c18_blockmix", "c18_romix", "c18_envelope")) else "playback")
+    kw.setdefault("replay", "model" if kw["name"].startswith(("enc_", "dec_", "hdr_", "noise_", "cmd_", "main_e", "c18_blockmix", "c18_romix", "c18_envelope")) else "playback")
     if "mod" not in kw:
         n = kw["name"]
         kw["mod"] = ("encrypt::verif_enc" if n.startswith("enc_") else "decrypt::verif_dec" if n.startswith("dec_")
@@ -168,7 +168,74 @@ H(name="c18_public_wrapper", crate="kestrel-crypto", props=["C18", "C02", "C15"]
   desc="kestrel_crypto::scrypt(password, salt, n, r, p, len) forwards all six arguments unchanged, in order, u32 -> usize zero-extended",
   funcs=["scrypt (lib.rs wrapper)"], bounds="all u32 n, r, p; len 0..8", env=["scrypt::scrypt recorder"], outside="")
 
+H(name="c18_ffi_scrypt", crate="kestrel-ffi", mod="verif_ffi", props=["C18"], est_s=60, replay="model",
+  desc="exported C scrypt(): (password, len, salt, len, N, r, p) forwarded unchanged and in order to kestrel_crypto::scrypt (also for empty password/salt); exactly dk_len bytes = the derived key are written at derived_key; guard bytes on both sides untouched",
+  funcs=["kestrel_ffi::scrypt (extern \"C\")", "kestrel_crypto::scrypt"], bounds="password/salt 0..4 bytes, all u32 N/r/p, dk_len 1..8", env=["kestrel_crypto::scrypt::scrypt recorder"], outside="NULL pointers with length 0 (from_raw_parts precondition is the caller's, per the header)")
+
+# ------------------------------------------------------------------ C20 (REAL zeroize crate)
+for _n, _d in (("c20_private_key_try_from_clone", "PrivateKey from bytes + clone, either drop order: both 32-byte blocks all-zero at release"),
+               ("c20_private_key_generate", "PrivateKey::generate(): one 32-byte CSPRNG draw, erased before release"),
+               ("c20_payload_key", "PayloadKey + clone, either drop order: 32 bytes read back zero after drop"),
+               ("c20_zeroizing_vec", "Zeroizing<Vec<u8>> (file key / scrypt key / DH secret buffers): erased before release")):
+    H(name=_n, crate="kestrel-crypto", mod="verif_zero", props=["C20"] + (["C07"] if "generate" in _n else []), est_s=60, real_zeroize=True, replay="model",
+      desc=_d, funcs=["PrivateKey::{try_from, generate, clone, drop, zeroize}", "PayloadKey::{new, clone, drop, zeroize}"], bounds="all 32-byte contents; both drop orders",
+      env=["alloc::alloc::dealloc_nonnull replaced by an inspector reading the block at release time", "getrandom::fill -> unconstrained bytes"],
+      outside="stack copies left behind by moves (the source says so itself); concurrent drops (Kani is sequential)")
+
+# ------------------------------------------------------------------ keyring (cli)
+KR_ENV = ["E-KDF: kestrel_crypto::scrypt::scrypt as a deterministic INJECTIVE uninterpreted function that checks its cost parameters",
+          "ideal AEAD on chapoly_{encrypt,decrypt}_ietf (opens iff exactly what was sealed)",
+          "E-B64: <ct_codecs::Base64>::{encode,decode} as a bijection between byte strings and opaque tokens; any other string decodes to harness-chosen bytes",
+          "kestrel_crypto::sha256 as a deterministic uninterpreted function", E_ZERO]
+H(name="c15_lock_unlock", crate="kestrel-cli", mod="keyring::verif_keyring", props=["C15", "C16", "C17"], est_s=120, replay="model",
+  desc="lock_private_key: blob = 65676B30 || salt || ChaCha20-Poly1305(key = scrypt(pw, salt, 32768, 8, 1, 32), nonce 0^12, pt = sk, aad = version), base64 of 84 bytes; unlock(lock(sk,pw),pw) = sk; any other password => PrivateKeyDecrypt",
+  funcs=["keyring::Keyring::lock_private_key", "keyring::Keyring::unlock_private_key", "keyring::EncodedSk::{try_from, as_bytes, as_str}"],
+  bounds="all 32-byte keys and salts; passwords of 0..4 arbitrary bytes (incl. empty, non-ASCII)", env=KR_ENV, outside="passwords > 4 bytes (never inspected by the code; > 64 is orion's pre-hash)")
+H(name="c15_tamper", crate="kestrel-cli", mod="keyring::verif_keyring", props=["C15", "C09"], auto_props=["C09"], est_s=120, replay="model",
+  desc="a locked key with ANY one of its 84 bytes changed by any non-zero xor fails to unlock (version byte => PrivateKeyFormat); strings decoding to any other length 0..90 are rejected by EncodedSk::try_from; never a panic",
+  funcs=["keyring::Keyring::unlock_private_key", "keyring::EncodedSk::try_from"], bounds="byte index 0..83, every non-zero xor; decoded lengths 0..90", env=KR_ENV, outside="multi-byte changes (each byte is covered by format check, KDF injectivity or the AEAD)")
+H(name="c17_public_key_checksum", crate="kestrel-cli", mod="keyring::verif_keyring", props=["C17", "C16", "C09"], auto_props=["C09", "C17"], est_s=60, replay="model",
+  desc="encode_public_key = base64(pk || SHA256(pk)[..4]); decode(encode(pk)) = pk; a 36-byte blob is usable iff last 4 bytes = SHA256(first 32)[..4]; other decoded lengths rejected; no panic",
+  funcs=["keyring::Keyring::encode_public_key", "keyring::Keyring::decode_public_key", "keyring::EncodedPk::try_from"], bounds="all 32-byte keys; all 36-byte blobs; decoded lengths 0..40", env=KR_ENV, outside="SHA-256 collisions on 4 bytes")
+H(name="c17_lookup", crate="kestrel-cli", mod="keyring::verif_keyring", props=["C17", "C12", "C05"], est_s=60, replay="model",
+  desc="get_name_from_key / get_key on keyrings of 0..3 entries: the entry whose encoded key / name is equal, else None", funcs=["keyring::Keyring::get_name_from_key", "keyring::Keyring::get_key"], bounds="0..3 entries, sender first/last/absent", env=[], outside="")
+H(name="c17_valid_key_name", crate="kestrel-cli", mod="keyring::verif_keyring", props=["C17"], est_s=20, replay="model",
+  desc="valid_key_name(s) iff 1 <= len <= 128", funcs=["keyring::Keyring::valid_key_name"], bounds="lengths 0..130", env=[], outside="")
+
+# ------------------------------------------------------------------ H-CMD (commands.rs / main.rs)
+CMD_ENV = ["E-FS: in-memory model of the output path (File::create = create-or-truncate, OpenOptions append/create/truncate/write recorded at the setters, write at handle position), existence of the input path",
+           "E-OS: passterm::isatty (stdin: not a tty; stdout: unconstrained), ask_pass/read_env_pass/ask_user_stderr/confirm_new_pass return a fixed password/name or fail (unconstrained choice)",
+           "E-RNG: secure_random returns fresh pairwise-distinct unconstrained bytes, every draw logged",
+           "E-CUT: core::fmt::write, alloc::fmt::format, std::io::{_print,_eprint}, Backtrace::capture produce nothing (message content is outside the claim)",
+           "library entry points (key_encrypt/key_decrypt/pass_encrypt/pass_decrypt) and keyring primitives (open_keyring, unlock/lock_private_key, encode/decode_public_key, serialize_key) are recorders with unconstrained outcome; their own behaviour is C01-C07, C15, C17",
+           E_ZERO]
+CMD_OUT = "real process exit code, getopts option tables, OS pipe/file semantics, message text; interactive retry loops (stdin is modelled as not a tty)"
+H(name="cmd_ondemand_file", crate="kestrel-cli", mod="commands::verif_cmd", props=["C13", "C04", "C12"], est_s=60, replay="model",
+  desc="OnDemandFile: constructing it touches nothing; the file is created at the first write OR flush, exactly once, never before", funcs=["commands::OnDemandFile::{new, write, flush, ensure_created}"],
+  bounds="every sequence of 3 operations from {write, flush, nothing}; path absent or present", env=CMD_ENV[:1], outside=CMD_OUT)
+H(name="cmd_gen_key_fs", crate="kestrel-cli", mod="commands::verif_cmd", props=["C14", "C13", "C16", "C07", "C12"], est_s=120, replay="model",
+  desc="gen_key(Some(path)): invalid name / missing password => Err and the path untouched; else Ok, earlier contents are a byte prefix of the new contents (existing file never re-created), new file created once, flushed; private key = CSPRNG draw 1, salt = draw 2 (distinct), PublicKey = encode(derive_public(draw 1)), locked under the user's password",
+  funcs=["commands::gen_key", "commands::open_output", "commands::OnDemandFile"], bounds="output path absent | present with any 0..4 bytes; one key generation from that arbitrary state (= the inductive step for any history)", env=CMD_ENV, outside=CMD_OUT + "; that the appended text parses (C17)")
+for _c, _p in (("cmd_decrypt_flow", ["C12", "C13", "C05"]), ("cmd_encrypt_flow", ["C12", "C13", "C07", "C05"]), ("cmd_pass_encrypt_flow", ["C12", "C13", "C07", "C02"]), ("cmd_pass_decrypt_flow", ["C12", "C13", "C02"])):
+    H(name=_c, crate="kestrel-cli", mod="commands::verif_cmd", props=_p, est_s=300, timeout=2400, replay="model",
+      desc="command returns Ok iff every pre-check passed and the library call returned Ok (errors never swallowed, success never manufactured); output path untouched unless and until the library writes; then it holds exactly what the library wrote; keys/passwords/salts handed to the library are the ones obtained (sender looked up by the authenticated key; salt = fresh CSPRNG draw)",
+      funcs=["commands::" + _c.replace("cmd_", "").replace("_flow", ""), "commands::open_input", "commands::open_output", "commands::OnDemandFile"],
+      bounds="input file arg or stdin; output path absent | present (0..4 bytes); keyring missing / 1..2 entries / with or without private key; name a|b|absent; every outcome of password prompt, unlock, checksum, and library call with 0..2 writes before its result", env=CMD_ENV, outside=CMD_OUT)
+H(name="cmd_change_pass", crate="kestrel-cli", mod="commands::verif_cmd", props=["C16", "C07", "C12"], est_s=120, replay="model",
+  desc="change_pass: unlock(given blob, OLD password); lock(THAT key, NEW password, salt = fresh 32-byte CSPRNG draw); one line printed; any failing step => Err, nothing locked/printed",
+  funcs=["commands::change_pass"], bounds="one step from an arbitrary (key, blob, passwords) state", env=CMD_ENV, outside=CMD_OUT + "; text of the printed line")
+H(name="cmd_extract_pub", crate="kestrel-cli", mod="commands::verif_cmd", props=["C16", "C12"], est_s=120, replay="model",
+  desc="extract_pub: unlock(given blob, password) -> derive public key of exactly that private key -> keyring encoding -> one line printed; nothing else", funcs=["commands::extract_pub"], bounds="all outcomes of prompt / decode / unlock", env=CMD_ENV, outside=CMD_OUT)
+H(name="main_exit_status", crate="kestrel-cli", mod="verif_main", props=["C12"], est_s=60, replay="model",
+  desc="main(): process::exit(1) is called iff try_main returned Err, after printing an error line; otherwise main returns normally (status 0)", funcs=["main"], bounds="both outcomes of try_main", env=["try_main, process::exit, _eprint replaced by recorders"], outside=CMD_OUT)
+H(name="main_slice_args", crate="kestrel-cli", mod="verif_main", props=["C09", "C12"], est_s=30, replay="playback",
+  desc="slice_args(args, idx) never panics: remainder after idx or empty", funcs=["slice_args"], bounds="0..4 args, idx 0..6", env=[], outside="")
+
 PROPERTIES = {
+    "C14": {"claim": "", "outside": "", "assumptions": []},
+    "C16": {"claim": "", "outside": "", "assumptions": []},
+    "C17": {"claim": "", "outside": "", "assumptions": []},
+    "C20": {"claim": "", "outside": "", "assumptions": []},
     "C18": {"claim": "", "outside": "", "assumptions": []},
     "C05": {"claim": "", "outside": "", "assumptions": []},
     "C13": {"claim": "", "outside": "", "assumptions": []},
